@@ -479,6 +479,20 @@ def _set_traits(context, rp, traits):
             raise exception.ResourceProviderConcurrentUpdateDetected()
         return
 
+    if to_add:
+        # The traits were looked up by name before this transaction began. A
+        # custom trait not yet associated with any provider may have been
+        # deleted since; associating its id now would leave a record that
+        # refers to no trait.
+        trait_tbl = models.Trait.__table__
+        found = context.session.execute(
+            sa.select(trait_tbl.c.id).where(
+                trait_tbl.c.id.in_(to_add))).fetchall()
+        missing = to_add - set(row[0] for row in found)
+        if missing:
+            raise exception.TraitNotFound(name=', '.join(
+                sorted(t.name for t in traits if t.id in missing)))
+
     if to_delete:
         _delete_traits_from_provider(context, rp.id, to_delete)
     if to_add:
